@@ -1,6 +1,6 @@
 SPECIFICATION Spec
 CONSTANTS
-  MaxDepth = 3
+  MaxDepth = 4
   Mint = FALSE
 INVARIANTS TypeOK NoMinting DeadStaysDead
 CHECK_DEADLOCK FALSE
